@@ -23,6 +23,12 @@ def check_case(case):
         spec = with_phases(spec, PH3 if case.get("ph3") else PH2, {case["who"]: case["pc"]})
         if case.get("pc_first"):
             spec["pc_first"] = True
+        if case.get("reconf"):   # configured TWICE: first for every phase (or an unrelated table), then with the final configuration, which replaces the first
+            for c in spec["comps"]:
+                if c["n"] == case["who"]:
+                    c["pc0"] = ["a", "b", "c"] if isinstance(c["pc"], list) else {"a": 1e-3, "b": 2e-3}
+        if case.get("bounce"):
+            spec["bounce"] = case["bounce"]
         if case.get("nophase"):  # a phase list on a component of a system WITHOUT system phases: the unnamed phase is in nobody's list
             spec["phases"] = None
     elif fam == "sib":  # dead source next to a live one
@@ -92,7 +98,7 @@ def check_case(case):
         res.nontrivial = 1
         res.classes.add("moved")
         return res
-    s, obs = phys.solve_and_check(res, spec, WANT)
+    s, obs = phys.solve_and_check(res, spec, WANT, rej=case.get("rej", False))
     if obs is not None and fam == "phase" and spec.get("phases") and case.get("chain"):
         # tight iteration budgets: for EVERY budget either RuntimeError or a table in which every phase is converged and the dead rail dead
         for mi in (2, 4, 6, 9, 13):
@@ -145,6 +151,10 @@ def gen_cases(tier):
                         yield dict(fam="phase", f=f, pal=pal, pol=1, srs=0.37, who=c["n"], pc=["zz"], pc_first=(n % 2 == 0))
                         if n <= 2:
                             yield dict(fam="phase", f=f, pal=pal, pol=1, srs=0.37, who=c["n"], pc=["a"], nophase=True)
+                            yield dict(fam="phase", f=f, pal=pal, pol=1, srs=0.37, who=c["n"], pc=["a"], reconf=True)
+                            yield dict(fam="phase", f=f, pal=pal, pol=1, srs=0.37, who=c["n"], pc=["b"], rej=True)
+                            yield dict(fam="phase", f=f, pal=pal, pol=1, srs=0.37, who=c["n"], pc=["a"], bounce="rename")
+                            yield dict(fam="phase", f=f, pal=pal, pol=1, srs=0.37, who=c["n"], pc=["b"], bounce="clear")
                         if n == 3 and c["k"] != "Source":
                             yield dict(fam="phase", f=f, pal=pal, pol=1, srs=0.37, who=c["n"], pc=["a"], move=True)
                         if tier != "quick":
